@@ -427,6 +427,7 @@ class SpecEval:
             "fsum": lambda f, n: sum(f(i) for i in range(int(n))),
             "lastnz": lambda f, n: max([i for i in range(int(n)) if f(i) != 0], default=-1),
             "log": lambda x: math.log(x) if x > 0 else float("nan"),
+            "amax": lambda a: float(np.max(a)),
             "rowsum": lambda A, a: int(np.asarray(A)[a].sum()), "mult": lambda L, j, k: list(L[j]).count(k),
             "ilen": lambda L, j: len(L[j]), "item": lambda L, j, p_: L[j][p_],
             "len2": lambda L, i: len(L[i]), "ilen3": lambda L, i, a: len(L[i][a]), "item3": lambda L, i, a, b: L[i][a][b], "floor": math.floor, "fabs": abs, "INT32": 2147483647,
